@@ -440,6 +440,39 @@ def check_C03(run):
                         "the theorem is about the Gallina model; handlers reach the state only through the modelled primitives"]
 
 
+def check_C01(run):
+    def extra(rng, run):
+        out = []
+        for f in gen.sample_files():
+            out += gen.truncations(f, max(1, len(f) // (120 if run.tier == "quick" else 2000)))
+        for t in gen.test_strings(300 if run.tier == "quick" else None):
+            if len(t) < 80:
+                out += gen.truncations(t)
+        return out
+
+    res = lexer_check(run, "C01", O.c01, 4000, 100000, variants=("debug", "release", "debug-sep"), need_ok=False, extra_inputs=extra)
+    # scaling families: work and output linear in the input length
+    T = impl.tables("debug")
+    fam = gen.FR[:: (6 if run.tier == "quick" else 1)]
+    ks = (4, 7) if run.tier == "quick" else (4, 8, 11)
+    ins = []
+    for f in fam:
+        for k in ks:
+            ins.append(f * (2 ** k))
+    cases = impl.run_lex("release", ins, mode="lex", timeout=1200)
+    run.count("scaling:release", len(cases))
+    by = {}
+    for s_, c in zip(ins, cases):
+        cx = O.Ctx(c, T) if c.src is not None else None
+        if cx is None:
+            continue
+        f = O.c01(cx)
+        if f:
+            run.violation("oracle", f"[release/scaling] {f[0]}", src=s_ if len(s_) < 300 else None, extra={"fragment": s_[:40], "length": len(s_)}, found_input=True if len(s_) < 300 else False)
+    run.assumptions += ["totality is tested, not proved: panic (catch_unwind), iteration budget 8n+64 (hook), internal errors, linear output, on all streams incl. every truncation of the sample programs and 2^k repetitions of every fragment",
+                        "memory growth is not measured (the model bounds counts, not allocator behaviour)"]
+
+
 def check_C02(run):
     lexer_check(run, "C02", O.c02, 3000, 80000, premise=({"wf": "true"}, "the buffer of the model run is not well-formed (premise of C02_accessors_succeed)"))
     run.assumptions += ["C02_sorted_* are conditional on the debug-profile run returning (C01); first-token-after-BOM and single-EOF are tested by the oracle on every input, not proved",
@@ -754,4 +787,4 @@ def check_C18(run):
     run.assumptions += ["equality of the two feature builds up to MacroSep tokens is tested on every input (both builds of the implementation, both configurations of the model); proved: the guard predicate"]
 
 
-CHECKS = {"C04": check_C04, "C06": check_C06, "C07": check_C07, "C12": check_C12, "C13": check_C13, "C14": check_C14, "C10": check_C10, "C16": check_C16, "C17": check_C17, "C18": check_C18, "C09": check_C09, "C05": check_C05, "C03": check_C03, "C02": check_C02, "C19": check_C19}
+CHECKS = {"C01": check_C01, "C04": check_C04, "C06": check_C06, "C07": check_C07, "C12": check_C12, "C13": check_C13, "C14": check_C14, "C10": check_C10, "C16": check_C16, "C17": check_C17, "C18": check_C18, "C09": check_C09, "C05": check_C05, "C03": check_C03, "C02": check_C02, "C19": check_C19}
